@@ -135,6 +135,19 @@ theorem C12_decode_spec (i : Input) (h : WF i = true) (target : Int) :
     | str s => exact hinto s
     | other => rfl
 
+/-! ### finding region -/
+
+/-- ParseEnum of a declared name from a package-level variable initializer that sorts before the
+    generated file finds nothing (the generated map literal is initialized later: the dependency is
+    hidden behind the generic call), for EVERY enum and every declared constant, where the property has
+    ParseEnum succeed on every declared name -/
+theorem C12_F_init_order_witness (i : Input) (h : WF i = true) (c : Const) (hc : c ∈ i.decl) :
+    F_init_order i = true ∧ parseEnumAtInit (vmOf i) (trim i.T c.name) = none ∧
+    specParse i.T i.decl (trim i.T c.name) = some c.val := by
+  refine ⟨h, rfl, ?_⟩
+  rw [← C12_parse i h]
+  exact ((C12_parse_iff i h (trim i.T c.name) c.val).2).mpr ⟨c, hc, rfl, rfl⟩
+
 /-! ### the former finding region F_sql_value_string (repaired in /repo 6a23295) -/
 
 /-- -sql round-trips through the very driver.Value it produces: `Value()` returns the name as a Go
